@@ -470,8 +470,9 @@ def agree(run, fx, rule='PLANEROUTE'):
             gv.items.append(r_)
         if not groups:
             gv.items.append(O.Rec({G12 + 'start_char_code': 0x10FFFF, G12 + 'end_char_code': 0x10FFFF, G12 + 'start_glyph_id': 0}))
-        for fld in ('format', 'length', 'language'):
-            tab[T12 + fld] = 0
+        tab[T12 + 'language'] = 0
+        tab[T12 + 'format'], tab[TB + 'format'] = 12 << 16, 12         # `fixed format`: the 16-bit format word of the generic header is its top half
+        tab[T12 + 'length'] = tab[TB + 'length'] = 16 + 12 * len(groups)
         tab[T12 + 'num_groups'] = len(groups)
         tab[T12 + 'group'] = O.It(gv, 0)
         return tab
@@ -488,6 +489,7 @@ def agree(run, fx, rule='PLANEROUTE'):
                 yield [(c_, c_) for c_ in single]
     zero_alloc = lambda it, f, e, obj, args: O.It(O.Vec([0] * it.rv(args[0])), 0)
     cases, prob = 0, None
+    chkcases, chkprob = 0, None
     f4, f12 = fn_of(fills[4][0]), fn_of(fills[12][0])
     try:
         bmp_sets = [sg for sg in segsets(2, 0, 6)]
@@ -498,6 +500,7 @@ def agree(run, fx, rule='PLANEROUTE'):
         smp_sets = [[]] + [sg for sg in segsets(1, 0xFFFE, 0x10002)] + [[(0x10000, 0x10001), (0x10003, 0x10004)]]
         # a format 12 subtable that also lists BMP ranges (most do): the cached fill must step over ALL of them
         smp_sets.insert(2, [(0x2, 0x2), (0x4, 0x4), (0x6, 0x6), (0x10000, 0x10001)])
+        smp_sets.insert(3, [(0x0, 0x1), (0x10000, 0x10000)])          # U+0000 is a code point like any other: a group may start there
         for k, bmp in enumerate(bmp_sets):
             for smp in (smp_sets if k % 7 == 0 else smp_sets[:2]):
                 t4 = mk4([(a, b, (10 - a) if b != 0xFFFF else (0x10000 + 30 - a)) for a, b in bmp])         # glyph = code point + 10 - start (30 - start in a real last segment)
@@ -513,6 +516,20 @@ def agree(run, fx, rule='PLANEROUTE'):
                 dc[DC + '_bmp'] = O.Ptr(t4)
                 dc[DC + '_smp'] = O.Ptr(t12) if t12 is not None else O.Ptr(None)
                 desc = 'format 4 segments %s%s' % (bmp, (', format 12 groups %s' % [('%X' % a, '%X' % b) for a, b in smp]) if smp else ', no format 12 subtable')
+                # every table of this set is well-formed: the gates the selectors put in front of the lookups must accept it, whatever
+                # slack follows it in the cmap table (a gate that rejects one leaves the character unmapped in both implementations)
+                for chkq, tab_, ln_ in (('graphite2::TtfUtil::CheckCmapSubtable4', t4, t4[TB + 'length']), ('graphite2::TtfUtil::CheckCmapSubtable12', t12, t12[T12 + 'length'] if t12 is not None else 0)):
+                    if tab_ is None or chkprob:
+                        continue
+                    for slack in (0, 5):
+                        try:
+                            ok_ = O.Interp(fx, natives={}).call(fx.one(chkq), None, [O.Ptr(tab_), O.EndPtr(tab_, ln_ + slack)])
+                        except O.Violation as v:
+                            ok_ = '%s (%s)' % (v.what, v.loc)
+                        chkcases += 1
+                        if ok_ is not True and ok_ != 1:
+                            chkprob = '%s, %d byte(s) of the cmap table following it: %s answers %r -- the sub-table is well-formed and must be accepted' % (desc, slack, chkq.split('::')[-1], ok_)
+                            break
                 nat = {'graphite2::grzeroalloc': zero_alloc}
                 try:
                     # the constructor itself decides whether there is a format 12 subtable to cache and how many blocks to allocate
@@ -548,6 +565,12 @@ def agree(run, fx, rule='PLANEROUTE'):
     except AnalysisBroken as ex:
         run.broken(rule, 'cached and direct lookups agree', str(ex), ctor.where())
         return
+    if chkprob:
+        run.violated(rule, 'well-formed sub-tables pass their gate', fx.one('graphite2::TtfUtil::CheckCmapSubtable12').where(), chkprob)
+    elif chkcases >= 20:
+        run.held(rule, 'well-formed sub-tables pass their gate', fx.one('graphite2::TtfUtil::CheckCmapSubtable12').where(), '%d interpreted calls of CheckCmapSubtable4 / 12 on the tables of the agreement run' % chkcases)
+    else:
+        run.broken(rule, 'well-formed sub-tables pass their gate', 'only %d gate calls interpreted' % chkcases, ctor.where())
     if prob:
         run.violated(rule, 'cached and direct lookups agree', ctor.where(), prob)
     else:
